@@ -158,6 +158,7 @@ class Stats:
             self.skipped += 1
             return
         self.evaluations += 1
+        _inflight(case, self.sub.name)
         try:
             info = self.sub.check(case) or {}
         except Violation as v:
@@ -192,6 +193,19 @@ class Stats:
             "violations": violations, "harness_error": harness_error,
             "wall": time.time() - self.t0,
         }
+
+
+_INFLIGHT_DIR = None
+
+
+def _inflight(case, sub_name):
+    """heartbeat: the case a worker is executing, so that a run stopped by the wall-clock guard can say where it hung"""
+    if _INFLIGHT_DIR:
+        try:
+            with open(os.path.join(_INFLIGHT_DIR, f"{os.getpid()}.json"), "w") as f:
+                f.write(json.dumps({"sub": sub_name, "t": time.time(), "case": json.loads(canon(case))})[:20000])
+        except Exception:
+            pass
 
 
 def _trim(case, limit=6000):
@@ -357,6 +371,10 @@ def _task_entry(args):
             os.dup2(dn, 2)
         except OSError:
             pass
+    if os.environ.get("VERIF_DEBUG_HANG"):
+        import faulthandler
+        faulthandler.dump_traceback_later(float(os.environ["VERIF_DEBUG_HANG"]), repeat=False,
+                                          file=open(f"/tmp/hang_{prop_name}_{sub_name}_{shard}.txt", "w"))
     return run_task(prop, subs[sub_name], tier, base_seed, shard, nshards)
 
 
@@ -499,25 +517,80 @@ def main(prop, argv=None):
             tasks.append((prop.ID, s.name, args.tier, seed_value, i, ns))
     # interleave sub-checks so that long ones start early
     tasks.sort(key=lambda t: (t[4], t[1]))
+    global _INFLIGHT_DIR
+    _INFLIGHT_DIR = tempfile.mkdtemp(prefix=f"pbt_{prop.ID}_")
+    import atexit
+    import shutil
+    atexit.register(shutil.rmtree, _INFLIGHT_DIR, True)
     ctx = multiprocessing.get_context("fork")
     nproc = max(1, min(args.procs, len(tasks)))
     results = []
+    crashed = []
     if nproc == 1:
         results = [_task_entry(t) for t in tasks]
     else:
-        # global wall-clock guard: only ever turns a hung run into exit 2 (inconclusive), never into a VIOLATION
+        # One forked process per (sub-check, shard) task, at most nproc at a time.  The parent watches exit codes: a
+        # worker killed by a signal (segfault / abort inside native code of the library) is a finding - the case it was
+        # executing is known from its heartbeat file - and not a lost task.  A global wall-clock guard only ever turns
+        # a hung run into exit 2 (inconclusive), never into a VIOLATION.
         limit = float(os.environ.get("VERIF_WALL_LIMIT", "1500" if args.tier == "quick" else "14400"))
-        with ctx.Pool(nproc, maxtasksperchild=1) as pool:
-            it = pool.imap_unordered(_task_entry, tasks)
-            try:
-                for _ in range(len(tasks)):
-                    remaining = limit - (time.time() - t0)
-                    results.append(it.next(timeout=max(1.0, remaining)))
-            except multiprocessing.TimeoutError:
-                pool.terminate()
-                print(f"HARNESS-ERROR property={prop.ID} wall-clock guard of {limit:.0f}s hit with {len(tasks) - len(results)} "
-                      f"shard(s) unfinished: inconclusive (a hang inside the library or the harness)")
-                return 2
+        pending = list(tasks)
+        running = {}     # pid -> (process, task, result path)
+
+        def child(task, path):
+            r = _task_entry(task)
+            with open(path, "w") as f:
+                json.dump(r, f, default=_default)
+            os._exit(0)
+
+        guard_hit = False
+        while pending or running:
+            while pending and len(running) < nproc:
+                task = pending.pop(0)
+                path = os.path.join(_INFLIGHT_DIR, f"result_{len(results) + len(running) + len(pending)}_{task[1]}_{task[4]}.json")
+                pr = ctx.Process(target=child, args=(task, path), daemon=True)
+                pr.start()
+                running[pr.pid] = (pr, task, path)
+            time.sleep(0.05)
+            for pid in list(running):
+                pr, task, path = running[pid]
+                if pr.is_alive():
+                    continue
+                pr.join()
+                del running[pid]
+                if os.path.exists(path):
+                    results.append(json.load(open(path)))
+                    continue
+                # died without a result
+                hb = os.path.join(_INFLIGHT_DIR, f"{pid}.json")
+                case = None
+                if os.path.exists(hb):
+                    try:
+                        case = json.load(open(hb))["case"]
+                    except Exception:
+                        case = None
+                crashed.append({"sub": task[1], "shard": task[4], "exitcode": pr.exitcode, "case": case})
+            if time.time() - t0 > limit:
+                guard_hit = True
+                break
+        if guard_hit:
+            now = time.time()
+            os.makedirs(REPLAY_DIR, exist_ok=True)
+            for pid, (pr, task, path) in running.items():
+                hb = os.path.join(_INFLIGHT_DIR, f"{pid}.json")
+                try:
+                    body = json.load(open(hb))
+                except Exception:
+                    body = None
+                pr.kill()
+                if body and now - body["t"] > 60:
+                    hp = os.path.join(REPLAY_DIR, f"{prop.ID}-{body['sub']}-inflight-{pid}.json")
+                    json.dump({"property": prop.ID, "sub": body["sub"], "sig": "in-flight-when-guard-hit", "msg": "", "case": body["case"]},
+                              open(hp, "w"), indent=1)
+                    print(f"  a worker had been executing one case of sub={body['sub']} for {now - body['t']:.0f}s: {hp}")
+            print(f"HARNESS-ERROR property={prop.ID} wall-clock guard of {limit:.0f}s hit with {len(running) + len(pending)} "
+                  f"shard(s) unfinished: inconclusive (a hang inside the library or the harness)")
+            return 2
     wall = time.time() - t0
 
     harness = [r for r in results if r["harness_error"]]
@@ -540,6 +613,12 @@ def main(prop, argv=None):
                 best[key] = (size, v)
     viols = [(k[0], v) for k, (_, v) in sorted(best.items())]
 
+    for cr in crashed:
+        if cr["case"] is None:
+            harness.append({"sub": cr["sub"], "shard": cr["shard"], "harness_error": f"worker exited with code {cr['exitcode']} before executing a case"})
+            continue
+        viols.append((cr["sub"], {"sig": f"process-killed:exitcode={cr['exitcode']}",
+                                  "msg": "the worker process died (signal / abort inside native code) while executing this case", "case": cr["case"]}))
     try:
         path = write_evidence(prop, args.tier, seed_value, results, wall, len(viols),
                               extra={"harness_errors": len(harness)} if harness else None)
